@@ -25,7 +25,7 @@ def find_trait(p, name):
 def workspace_calls(p, body):
     out = []
     for bb, t in body.calls():
-        if t.get("callee") in (flow.POLL, flow.INTO_FUTURE) or (t.get("callee") or "").startswith("std::"):
+        if t.get("callee") in (flow.POLL, flow.INTO_FUTURE) or (t.get("callee") or "").split("::")[0] in ("core", "alloc", "std"):
             continue  # await plumbing / std
         names = core.callee_names(t)
         if any(n.split("::")[0].lstrip("<") in core.WORKSPACE_CRATES or n.startswith("<passkey") for n in names):
